@@ -30,6 +30,7 @@ const (
 	kUnit
 	kStrList  // []string
 	kSuitePtr // *SuiteConfig (an in/out parameter)
+	kHashCtor // func() hash.Hash: which hash it constructs, nil when unset
 	kOther
 )
 
@@ -111,6 +112,11 @@ func (t *tr) kindOf(ty types.Type) kind {
 			}
 		}
 	case *types.Signature:
+		if u.Params().Len() == 0 && u.Results().Len() == 1 {
+			if n, ok := u.Results().At(0).Type().(*types.Named); ok && n.Obj().Name() == "Hash" && n.Obj().Pkg() != nil && n.Obj().Pkg().Path() == "hash" {
+				return kHashCtor
+			}
+		}
 		return kFunc
 	case *types.Interface:
 		if u.NumMethods() == 1 && u.Method(0).Name() == "Error" {
@@ -166,6 +172,8 @@ func (t *tr) coqType(n ast.Node, ty types.Type) string {
 		return "hstate"
 	case kPoolEntry:
 		return "alg"
+	case kHashCtor:
+		return "(option alg)"
 	case kUnit:
 		return "unit"
 	case kFunc:
@@ -207,7 +215,7 @@ func (t *tr) zero(n ast.Node, ty types.Type) string {
 			return fmt.Sprintf("(repeat 0%%N %d)", a.Len())
 		}
 		return "[]"
-	case kErr, kParamPtr:
+	case kErr, kParamPtr, kHashCtor:
 		return "None"
 	case kStrList:
 		return "[]"
